@@ -210,7 +210,7 @@ func VH_C08_modifier_text() {
 }
 
 //verif:harness prop=C08 quick=4 thorough=8 merge=concrete timeout=1200
-//verif:bounds locator composition: sequence of 9 residues with two gene features (range and complemented range, symbolic coordinates) and a cds; locator strings gene | gene@M | @M | 3..6 | 3..6@M | complement(3..6)@M | 4 | M for M in {^, $, ^+1..$-1, ^-1..^+2, $-2..$}: AsLocator(s)(seq) equals the regions of the specifier, each resized by M, in table order
+//verif:bounds locator composition: sequence of 9 residues with two gene features (range and complemented range, symbolic coordinates) and a cds; locator strings gene | gene@M | @M | 3..6 | 3..6@M | complement(3..6)@M | 4 | M for M in {^, $, ^+1..$-1, ^-1..^+2, $-2..$}: AsLocator(s)(seq) equals the regions of the specifier, each resized by M, in table order, also when the locator is applied a second time
 func VH_C08_locators() {
 	const L = 9
 	mods := []string{"^", "$", "^+1..$-1", "^-1..^+2", "$-2..$"}
@@ -248,7 +248,16 @@ func VH_C08_locators() {
 		if err != nil {
 			return nil
 		}
-		return loc(seq)
+		first := loc(seq)
+		// a locator is applied to every record of a stream: the second application gives the same regions
+		again := loc(seq)
+		vAssert("locator-is-repeatable", len(again) == len(first))
+		if len(again) == len(first) {
+			for i := range first {
+				vAssert("locator-is-repeatable", vAnd(again[i].Head() == first[i].Head(), again[i].Tail() == first[i].Tail()))
+			}
+		}
+		return again
 	}
 	vCover("located")
 	// selector: matching features in table order
@@ -278,4 +287,66 @@ func VH_C08_locators() {
 	// bare modifier: the whole sequence resized
 	same("M", run(mtxt), []Region{Segment{0, L}.Resize(mod)})
 	vObserve("ngenes", len(genes))
+}
+
+//verif:harness prop=C08 quick=2 thorough=4 merge=concrete timeout=1200
+//verif:bounds bare selectors whose key does not start with a letter: a feature keyed c+"'UTR" (quick) / c+"_signal", c+"x", "3..6"+c (thorough), c one symbolic byte over [0-9A-Za-z_-]: AsLocator(key)(seq) is that feature's region, AsLocator(key@^..$) likewise, unless the whole string is itself a location or modifier
+func VH_C08_locator_keys() {
+	const L = 9
+	sh := vShard(2 + 2*vTier())
+	c := vByte("c")
+	ok := vOr(vOr(vAnd('0' <= c, c <= '9'), vAnd('a' <= c, c <= 'z')), vOr(vAnd('A' <= c, c <= 'Z'), vOr(c == '_', c == '-')))
+	vAssume(ok)
+	var key string
+	switch sh {
+	case 0, 1:
+		key = string([]byte{c}) + "'UTR"
+	case 2:
+		key = string([]byte{c}) + "_signal"
+	default:
+		key = "3..6" + string([]byte{c})
+	}
+	if sh == 3 {
+		vAssume(!vAnd('0' <= c, c <= '9')) // 3..6 followed by a digit is a range
+	}
+	s := vIntIn("s", 0, L-2)
+	e := vIntIn("e", 2, L)
+	vAssume(s+1 < e)
+	ff := FeatureSlice{}
+	ff = ff.Insert(Feature{"gene", Range(0, 1), vFeatTag(0)})
+	ff = ff.Insert(Feature{key, Range(s, e), vFeatTag(1)})
+	seq := New(nil, ff, make([]byte, L))
+	txt := key
+	if sh == 1 {
+		txt = key + "@^..$"
+	}
+	loc, err := AsLocator(txt)
+	vAssert("selector-accepted", err == nil)
+	if err != nil {
+		return
+	}
+	vCover("located")
+	rr := loc(seq)
+	vAssert("selects-the-keyed-feature", vAnd(len(rr) == 1, true))
+	if len(rr) == 1 {
+		vAssert("selects-the-keyed-feature", vAnd(rr[0].Head() == s, rr[0].Tail() == e))
+	}
+	vObserve("n", len(rr))
+}
+
+//verif:harness prop=C08 quick=1 thorough=1
+//verif:bounds zero-length regions (between-sites) on either strand, symbolic position and offsets in [0,2^40]: site@^-p..$+q extends by p on the 5' side and q on the 3' side in the direction of the feature's strand
+func VH_C08_site_strand() {
+	g := vIntIn("g", 0, vCap)
+	p := vIntIn("p", 0, vCap)
+	q := vIntIn("q", 0, vCap)
+	vAssume(p+q > 0)
+	fwd := Between(g).Region().Resize(HeadTail{-p, q})
+	vCover("resized")
+	vAssert("forward-site-extends-on-its-strand", vAnd(fwd.Head() == g-p, fwd.Tail() == g+q))
+	rev := Between(g).Complement().Region().Resize(HeadTail{-p, q})
+	// on the complement strand the 5' side lies at the higher coordinates
+	vAssert("complement-site-extends-on-its-strand", vAnd(rev.Head() == g+p, rev.Tail() == g-q))
+	vObserve("head", rev.Head())
+	vObserve("tail", rev.Tail())
 }
